@@ -51,8 +51,16 @@ def lean_stage(pid, P):
         res["broken"] = res["broken"] or theorems
     if not theorems:
         res["problems"].append("no theorems registered for this property")
-    res["driver_ok"] = vlib.DRIVER.exists() and ("Main" not in failed)
+    res["failed_all"] = failed
     return res
+
+
+def lean_deps_file(path):
+    seen = set()
+    if path.exists():
+        for m in re.finditer(r"^import\s+(CollectionsC\.[\w.]+)", path.read_text(), re.M):
+            lean_deps(m.group(1), seen)
+    return seen
 
 
 def lean_deps(module, seen=None):
@@ -143,11 +151,19 @@ def run_check(pid, tier, seed, replay=None):
         print("replay: no difference")
         return 0
 
-    if not lean["driver_ok"]:
-        notes.append("lean driver did not build; correspondence cannot run")
-    else:
+    def driver_ok(container):
+        bad = {f"Mains.{container}", f"driver_{container}"} | {m for m in lean["failed_all"] if m in lean_deps_file(LEAN / "Mains" / f"{container}.lean")}
+        return vlib.driver_path(container).exists() and not (bad & set(lean["failed_all"]))
+    lean["driver_ok"] = all(driver_ok(c["container"]) for c in P["streams"])
+    if True:
         for cspec in P["streams"]:
             container = cspec["container"]
+            if not driver_ok(container):
+                notes.append(f"lean driver for {container} did not build; its correspondence cannot run")
+                lean["problems"].append(f"lean driver for {container} did not build")
+                if not lean["broken"]:
+                    lean["broken"] = lean["theorems"] or [f"driver_{container}"]
+                continue
             g = gens.GENS[container]
             opts = props.container_opts(container)
             try:
@@ -162,12 +178,11 @@ def run_check(pid, tier, seed, replay=None):
                 batches.append(("corpus", [ops for _, ops in corp]))
             focus = cspec.get("focus")
             if cspec.get("small", True):
-                batches.append(("small-scope", g.small_scope(tier, **({"focus": focus} if focus else {}))))
+                batches.append(("small-scope", g.small_scope(tier, focus=focus)))
             n = cspec.get("n_quick", 300) if tier == "quick" else cspec.get("n_thorough", 6000)
-            batches.append(("random", g.random(rng, n, tier, **({"focus": focus} if focus else {}))))
+            batches.append(("random", g.random(rng, n, tier, focus=focus)))
             if cspec.get("faults", False):
-                base = g.random(rng, cspec.get("fault_hist_quick", 25) if tier == "quick" else cspec.get("fault_hist_thorough", 300), tier,
-                                **({"focus": focus} if focus else {}))
+                base = g.random(rng, cspec.get("fault_hist_quick", 25) if tier == "quick" else cspec.get("fault_hist_thorough", 300), tier, focus=focus)
                 if hasattr(g, "fault_seeds"):
                     base = g.fault_seeds(tier) + base
                 fv = []
@@ -305,8 +320,7 @@ def search_failing_input(P, pid, container, ops, diffs, rng, tier):
         focus = diffs[0].op.split()[0]
     n = (300 if tier == "quick" else 3000) * 20 // 4
     runner = Runner(container, props.container_opts(container))
-    kw = {"focus": focus} if focus and "focus" in g.random.__code__.co_varnames else {}
-    hs = g.random(rng, n, tier, **kw)
+    hs = g.random(rng, n, tier, focus=P.get("search_focus"))
     if ops:
         # mutations of the diverging history: vary numeric arguments around the divergence
         for _ in range(200):
